@@ -1377,6 +1377,14 @@ class LogixDriver(CIPDriver):
                             results[req.request_id] = Tag(
                                 req.tag, None, None, req.error or resp.error
                             )
+                    # requests the reply carries no service reply for (error reply, short reply)
+                    for req in request.requests[len(response.responses) :]:
+                        results[req.request_id] = Tag(
+                            req.tag,
+                            None,
+                            None,
+                            req.error or response.error or "No reply received for request",
+                        )
         return results
 
     def send(self, request: RequestPacket):
